@@ -190,7 +190,8 @@ int kv_fprintf(FILE* f, const char* fmt, ...)
         va_end(ap);
         return 0;
 }
-static FILE* kv_fopen(const char* p, const char* m){ (void)p; (void)m; return stdout; }
+static char kv_dummy_file[8];   /* never dereferenced: all output goes through the capture stubs (CBMC's stdout may be NULL) */
+static FILE* kv_fopen(const char* p, const char* m){ (void)p; (void)m; return (FILE*)kv_dummy_file; }
 static int kv_fclose(FILE* f){ (void)f; return 0; }
 static time_t kv_time(time_t* t){ if(t){ *t = 0; } return 0; }
 static struct tm* kv_localtime_r(const time_t* t, struct tm* r){ (void)t; memset(r, 0, sizeof(*r)); return r; }
